@@ -1,7 +1,10 @@
 package main
 
 import (
+	"encoding/json"
 	"fmt"
+	"github.com/woodsbury/decimal128"
+	"math"
 	"strconv"
 	"strings"
 
@@ -91,7 +94,7 @@ func genC08(tier, out string, sum *Summary) {
 		} else if want != "" && static {
 			sum.direct("category", expr, doc, "expected a "+want+" error, got "+describe(o))
 		}
-		if modelled(doc) && emitToModel && !(hasEnumText(expr) == "true" && strings.ContainsAny(expr, "[<>=!")) {
+		if modelled(doc) && emitToModel && !heavyForModel(expr, doc) && !(hasEnumText(expr) == "true" && strings.ContainsAny(expr, "[<>=!")) {
 			sh.Add(fmt.Sprintf("BC %d %s %s %s %s", id, hx(expr), coqValue(doc), hasEnumText(expr), coqObs(o)))
 		}
 		sid := strconv.Itoa(id)
@@ -159,6 +162,48 @@ func genC08(tier, out string, sum *Summary) {
 		if !hit {
 			sum.direct("category", f.expr, docs[0], "expected a "+f.cat+" error on at least one of the two fault documents, got none")
 		}
+	}
+	// every combination of two constructs with failing operands: whatever fails obeys the contract (nil result,
+	// exactly one category, Compile = Search for static faults, compiled expressions never report static ones)
+	for i, sc := range smallScope(ssCfg{funcs: true, lets: true, errs: true, bools: true}, 1, 2000) {
+		text := unparse(sc.e)
+		emitToModel = i%6 == 0 && !(hasEnum(sc.e) && orderSensitive(sc.e))
+		o := check(text, sc.doc, "", false)
+		emitToModel = true
+		x, cerr := jmespath.Compile(text)
+		if cerr != nil {
+			sum.direct("static", text, nil, "Compile rejected a well-formed expression: "+cerr.Error())
+			continue
+		}
+		eo := observe(func() (any, error) { return x.Search(sc.doc) })
+		if eo.Kind != o.Kind || (eo.Kind == "err" && !sameCats(eo.Cats, o.Cats) && !unorderedFaults(sc.e)) {
+			sum.direct("compile-vs-search", text, sc.doc, fmt.Sprintf("Search gives %s, Expression.Search gives %s", describe(o), describe(eo)))
+		}
+		if eo.Kind == "err" {
+			for _, c := range eo.Cats {
+				if c == "CSyntax" || c == "CInvalidArity" || c == "CUnknownFunction" {
+					sum.direct("compiled-never-static", text, sc.doc, "a compiled Expression reported the static category "+c)
+				}
+			}
+		}
+	}
+	// integer arguments carried by Go kinds that JSON decoding never produces: out of range is a value fault,
+	// never a type fault (the argument IS a number)
+	{
+		nat := map[string]any{"u64": uint64(math.MaxUint64), "u": uint(1) << 63, "i64": int64(math.MinInt64), "f": 1.5, "nan": math.NaN(), "inf": math.Inf(1), "dnan": decimal128.NaN(), "dinf": decimal128.Inf(-1),
+			"big": float64(1 << 63), "f32": float32(2.5), "i8": int8(-1), "jn": json.Number("NaN"), "jinf": json.Number("-Infinity"), "s": "abc"}
+		emitToModel = false
+		for _, a := range []string{"u64", "u", "i64", "f", "nan", "inf", "dnan", "dinf", "big", "f32", "i8", "jn", "jinf"} {
+			for _, f := range []string{"pad_left(s, %s)", "pad_right(s, %s, 'x')", "split(s, 'b', %s)", "replace(s, 'b', 'c', %s)"} {
+				check(fmt.Sprintf(f, a), nat, "CInvalidValue", false)
+			}
+		}
+		for _, a := range []string{"u64", "u", "f", "nan", "inf", "dnan", "dinf", "big", "f32", "jn", "jinf"} {
+			for _, f := range []string{"find_first(s, 'b', %s)", "find_last(s, 'b', %s)", "find_first(s, 'b', `0`, %s)", "find_last(s, 'b', %s, `2`)"} {
+				check(fmt.Sprintf(f, a), nat, "CInvalidValue", false)
+			}
+		}
+		emitToModel = true
 	}
 	// values whose serialisation fails with an error that itself matches an exported category
 	for _, sn := range sentinels {
@@ -255,3 +300,33 @@ func mutate(s string) string {
 type badMarshal struct{ err error }
 
 func (b badMarshal) MarshalJSON() ([]byte, error) { return nil, b.err }
+
+// can two faults of different categories compete in an unspecified order (members of a multi-select hash,
+// bindings of a let)?
+func unorderedFaults(e *R) bool {
+	if e == nil {
+		return false
+	}
+	if (e.K == KMultiHash || e.K == KLet) && len(e.KEs) > 1 {
+		return true
+	}
+	if unorderedFaults(e.L) || unorderedFaults(e.Rt) || unorderedFaults(e.Cond) {
+		return true
+	}
+	for _, x := range e.Es {
+		if unorderedFaults(x) {
+			return true
+		}
+	}
+	for _, kv := range e.KEs {
+		if unorderedFaults(kv.E) {
+			return true
+		}
+	}
+	for _, a := range e.Args {
+		if unorderedFaults(a.E) {
+			return true
+		}
+	}
+	return false
+}
